@@ -51,6 +51,9 @@ class Weaver:
             self.meta['clang_cmds'].append(self.tus[key].cmd)
             # typedefs of the TU feed the type map
             for nid, n in self.tus[key].index.items():
+                if n.get('kind') == 'CXXRecordDecl' and n.get('name') and n.get('completeDefinition'):
+                    qn = self.tus[key].qualname(n)
+                    if qn.startswith('Pomerol::') or qn.startswith('pMPI::'): self.tm.known_records.add(qn)
                 if n.get('kind') in ('TypedefDecl', 'TypeAliasDecl') and n.get('name'):
                     u = n['type'].get('desugaredQualType') or n['type'].get('qualType')
                     qn = self.tus[key].qualname(n)
@@ -105,7 +108,8 @@ class Weaver:
                 c, k = self.tm.lookup(toks[1])
                 p = self.printer()
                 txt, info = p.struct(rec, c, only=kv['only'].split(',') if 'only' in kv else None,
-                                     skip=kv['skip'].split(',') if 'skip' in kv else (), extra='\n'.join(extra))
+                                     skip=kv['skip'].split(',') if 'skip' in kv else (), extra='\n'.join(extra),
+                                     embed=kv['embed'].split(',') if 'embed' in kv else ())
                 out.append('/* generated from record %s */' % toks[1]); out.append(txt)
                 self.meta['structs'].append(dict(record=toks[1], cname=c, notes=info))
             elif cmd == 'enum':
